@@ -2,6 +2,7 @@
   C14 — OAuth2 callbacks need the session's own unused state and bind the named identity.
 -/
 import Proofs.Dispatch
+import Proofs.Appends
 
 namespace AuthbossModel.M
 attribute [local irreducible] Frame Lic
@@ -69,6 +70,30 @@ theorem C14_no_state_no_effect (c : Ctx) (h : c.sess.get .oauthState ≠ some c.
     have hne : c.req.state ≠ want := by intro he; apply h; rw [hs, he]
     simp only [bne_iff_ne, ne_eq, hne, not_false_eq_true, if_true]
     exact ⟨rfl, rfl, _, rfl⟩
+
+/-! ### The state is spent by the first matching callback -/
+
+set_option maxHeartbeats 4000000 in
+/-- **C14_state_spent.** A callback whose `state` matches the one in the session deletes the
+state (and the stored parameters) from the session *first*: whatever happens afterwards —
+provider error, failing exchange, veto, success — the two deletions are the first things it
+queues, so the response that answers it spends the state. -/
+theorem C14_state_spent (c : Ctx) (want : Bytes) (hs : c.sess.get .oauthState = some want)
+    (hm : c.req.state = want) :
+    ∃ ext, (oauth2End c).2.acts = c.acts ++ [.sess (.del .oauthState), .sess (.del .oauthParams)] ++ ext := by
+  unfold oauth2End
+  simp only [bind_apply, M.get, M.logf, M.modify, hs, hm, bne_self_eq_false, Bool.false_eq_true, if_false,
+    M.delS, M.act]
+  suffices h : ∀ (k : H PUnit) (c2 : Ctx), App k → c2.acts = c.acts ++ [.sess (.del .oauthState), .sess (.del .oauthParams)] →
+      ∃ ext, (k c2).2.acts = c.acts ++ [.sess (.del .oauthState), .sess (.del .oauthParams)] ++ ext by
+    apply h
+    · repeat' (first
+        | exact App.fireAfter _ | exact App.fireBefore _ | exact App.redirect _ _ _ _
+        | exact App.act _ | app_step)
+    · simp
+  intro k c2 hk h2
+  obtain ⟨ext, he⟩ := hk c2
+  exact ⟨ext, by rw [he, h2]⟩
 
 /-! ### Non-vacuity -/
 example : makeOAuth2PID (lit "google") (lit "u;;1") ≠ makeOAuth2PID (lit "github") (lit "u;;1") := by decide
